@@ -105,8 +105,6 @@ def _iter_storage(ex, v, s, st):
 Exec.iter_handlers["Obj_Storage"] = _iter_storage
 Exec.listof_handlers["Obj_Storage"] = lambda ex, v, node, st: v.t["items"]
 
-q_and = z3.Function("q_and", sort_of(Q), sort_of(Q), sort_of(Q))  # a & b
-q_meas_eq = z3.Function("q_meas_eq", sort_of(TStr), sort_of(Q))  # MeasurementQuery() == m
 
 
 def db_query_axioms():
@@ -120,6 +118,8 @@ def db_query_axioms():
                               wfq(x) == z3.And(wfq(a), wfq(b))), patterns=[q_and(a, b)]),
         forall([m], z3.And(q_kind(y) == 0, wfq(y), q_hash_truthy(y), q_attr(y) == A_MEAS, q_op(y) == OPS["eq"]), patterns=[q_meas_eq(m)]),
         forall([m, p], sem(y, p) == (meas(p) == m), patterns=[sem(y, p)]),
+        forall([m], z3.And(q_kind(q_meas_ne(m)) == 0, wfq(q_meas_ne(m)), q_hash_truthy(q_meas_ne(m)), q_attr(q_meas_ne(m)) == A_MEAS, q_op(q_meas_ne(m)) == OPS["ne"]), patterns=[q_meas_ne(m)]),
+        forall([m, p], sem(q_meas_ne(m), p) == (meas(p) != m), patterns=[sem(q_meas_ne(m), p)]),
     ]
 
 
@@ -147,6 +147,9 @@ _orig_compare = Exec.compare
 def _compare(self, op, a, b, node, st):
     if isinstance(op, _ast.Eq) and (a.ty == BaseMQ or b.ty == BaseMQ):
         raise _QueryValue(Val(Q, _mq_eq(self, a, b, node, st)))
+    if isinstance(op, _ast.NotEq) and (a.ty == BaseMQ or b.ty == BaseMQ):
+        other = b if a.ty == BaseMQ else a
+        raise _QueryValue(Val(Q, q_meas_ne(self.coerce(other, TStr, node, "MeasurementQuery comparison value").t)))
     return _orig_compare(self, op, a, b, node, st)
 
 
@@ -186,3 +189,7 @@ Exec.isnone_handlers["Dt"] = lambda ex, v: z3.BoolVal(False)
 Exec.isnone_handlers["Pt"] = lambda ex, v: z3.BoolVal(False)
 Exec.method_handlers[("Dt", "replace")] = lambda ex, v, node, st, rn: Val(Dt, z3.Function("dt_replace_tz", sort_of(Dt), sort_of(Dt))(v.t))
 Exec.truthy_handlers["Pt"] = lambda ex, v: z3.BoolVal(True)
+Exec.method_handlers[("HandleCache", "clear")] = lambda ex, v, node, st, rn: ex._mutate(rn, Val(Cache, z3.Const("empty_handle_cache", sort_of(Cache))), st, node)
+# the handle cache of TinyFlux is abstract: membership is unconstrained, deletion keeps it abstract
+Exec.contains_handlers["HandleCache"] = lambda ex, cont, x, node, st: z3.Const(fresh_name("in_handle_cache"), z3.BoolSort())
+Exec.delitem_handlers["HandleCache"] = lambda ex, t, base, st: ex.assign_to(t.value, Val(Cache, z3.Const(fresh_name("handle_cache"), sort_of(Cache))), st)
